@@ -207,7 +207,38 @@ type actorSpec struct {
 	ops             []string // single-path calls (default pathOps)
 	users           []string // SetUser arguments
 	umasks          []uint32 // SetUMask arguments
+
+	// Views are not only part of the start state: "<name> = <recv>.Sub(spelling)"
+	// is a call of the alphabet that creates the view anew, in whatever state
+	// (user, umask, working directory) the receiver has by then.
+	//
+	// General lesson: a function that takes a directory compares, cleans or
+	// short-cuts on the STRING it was given ("." means 'nothing to do', "/" means
+	// 'the root'). The directory of a view is therefore spelled in every way a
+	// caller can spell it - absolute clean, absolute with "." and "..", relative
+	// to the receiver's working directory ("." / ".." / a name) - from the parent
+	// and from a view (nested), and the independence of user, umask and working
+	// directory is probed on every view that comes out, however it was spelled.
+	recv string   // name of the actor Sub is called on
+	sub  []string // spellings of the directory
+
+	// Directories (in the actor's namespace) that are the root of a view: Chmod
+	// is issued on them with every mode of rootModes as well.
+	//
+	// General lesson: the directory a view is rooted at is an ordinary directory
+	// of the parent, with an owner and a mode of its own; "the root needs no
+	// permission check" is true of a real root (0755, owned by the administrator)
+	// and false of a view's. Every call whose operand resolves to the view's root
+	// ('/', '/.', '/q/..', '..' ...) is therefore also made while that directory
+	// refuses search, or write, or read to the view's user.
+	rootDirs []string
 }
+
+// rootModes: one of x, w, r missing for group and others (the view roots of
+// the start state belong to the administrator: the non-admin users are
+// "others" there); the plain Chmod of the alphabet (0700) removes all three.
+// The core alphabet, explored one level deeper, keeps to 0700.
+var rootModes = []uint32{0o766, 0o755, 0o733}
 
 // actorSpecs returns the actors and their alphabets. The core alphabet is a
 // subset (fewer operands, fewer calls) explored one level deeper.
@@ -227,6 +258,7 @@ func actorSpecs(tier string, core bool) []actorSpec {
 				rel: []string{"f", "..", "new"},
 				src: []string{"/q/f", "/q"}, dst: []string{"/new", "/../new"},
 				users: []string{"u1", "root"}, umasks: []uint32{0o077},
+				recv: "parent", sub: []string{"/p", "."},
 			},
 			{
 				name: "V2", kind: "nested", dir: "/p/q", ops: ops,
@@ -234,6 +266,7 @@ func actorSpecs(tier string, core bool) []actorSpec {
 				rel: []string{"f", ".."},
 				src: []string{"/f"}, dst: []string{"/new", "/../new"},
 				users: []string{"u2", "root"}, umasks: []uint32{0o027},
+				recv: "V1", sub: []string{"/q", "."},
 			},
 		}
 	}
@@ -249,20 +282,23 @@ func actorSpecs(tier string, core bool) []actorSpec {
 		{
 			name: "parent", kind: "parent", dir: "/",
 			abs: parentAbs, rel: parentRel, src: parentSrc, dst: parentDst,
+			rootDirs: []string{"/p", "/p/q"},
 		},
 		{
 			name: "V1", kind: "view", dir: "/p", users: users, umasks: umasks,
-			abs: []string{"/", "/q", "/q/f", "/g", "/new", "/q/new", "/..", "/../o", "/../o/h", "/q/../..", "/q/../../o/h", "/p", "/o"},
-			rel: []string{"f", "q/f", "..", "../..", "../o/h", "new"},
-			src: []string{"/q", "/q/f", "/g", "/", "/../o/h", "f"},
-			dst: []string{"/new", "/q/new", "/../new", "/../o/new", "/g", "/q", "new"},
+			abs:  []string{"/", "/q", "/q/f", "/g", "/new", "/q/new", "/..", "/../o", "/../o/h", "/q/..", "/q/../..", "/q/../../o/h", "/p", "/o"},
+			rel:  []string{"f", "q/f", "..", "../..", "../o/h", "new"},
+			src:  []string{"/q", "/q/f", "/g", "/", "/../o/h", "f"},
+			dst:  []string{"/new", "/q/new", "/../new", "/../o/new", "/g", "/q", "new"},
+			recv: "parent", sub: []string{"/p", "/p/.", "/p/q/..", "p", ".", ".."}, rootDirs: []string{"/"},
 		},
 		{
 			name: "V2", kind: "nested", dir: "/p/q", users: users, umasks: umasks,
-			abs: []string{"/", "/f", "/new", "/..", "/../g", "/../../o/h", "/f/../..", "/q", "/p", "/o"},
-			rel: []string{"f", "..", "../..", "../g", "../../o/h", "new"},
-			src: []string{"/f", "/", "/../g", "/../../o/h", "f"},
-			dst: []string{"/new", "/../new", "/../../o/new", "/f", "new"},
+			abs:  []string{"/", "/.", "/f", "/new", "/..", "/../g", "/../../o/h", "/f/../..", "/q", "/p", "/o"},
+			rel:  []string{"f", "..", "../..", "../g", "../../o/h", "new"},
+			src:  []string{"/f", "/", "/../g", "/../../o/h", "f"},
+			dst:  []string{"/new", "/../new", "/../../o/new", "/f", "new"},
+			recv: "V1", sub: []string{"/q", "/q/.", "q", ".", ".."}, rootDirs: []string{"/"},
 		},
 	}
 
@@ -272,6 +308,7 @@ func actorSpecs(tier string, core bool) []actorSpec {
 			name: "V0", kind: "rootview", dir: "/", users: users, umasks: umasks,
 			abs: append(append([]string{}, parentAbs...), "/..", "/../o/h"),
 			rel: parentRel, src: parentSrc, dst: parentDst,
+			recv: "parent", sub: []string{"/", "/p/..", ".", ".."},
 		})
 	}
 
@@ -316,6 +353,16 @@ func buildOps(specs []actorSpec) []op {
 					add(fsx.Call{Op: o, A: a, B: b})
 				}
 			}
+		}
+
+		for _, p := range sp.rootDirs {
+			for _, m := range rootModes {
+				add(fsx.Call{Op: "Chmod", A: p, Perm: m})
+			}
+		}
+
+		for _, p := range sp.sub {
+			add(fsx.Call{Op: "Sub", A: p})
 		}
 
 		add(fsx.Call{Op: "Getwd"})
